@@ -80,9 +80,22 @@ type Hold struct {
 	For string        `json:"for"`
 	N   int           `json:"n,omitempty"`
 	Max time.Duration `json:"max,omitempty"`
+	// Skip: let the task pass this many matching points first. At may end in "*" (prefix
+	// match): "lock@target.go:*" is whatever lock acquisition of target.go the task reaches,
+	// so a goroutine can be descheduled between two critical sections nobody placed a hook in.
+	Skip int `json:"skip,omitempty"`
+}
+
+// holdAt tells whether yield point `point` is where hold h applies.
+func holdAt(h *Hold, point string) bool {
+	if strings.HasSuffix(h.At, "*") {
+		return strings.HasPrefix(point, h.At[:len(h.At)-1])
+	}
+	return h.At == point
 }
 
 type Task struct {
+	holdSkip  int // matching points passed so far under hold (Hold.Skip)
 	hold      *Hold
 	holdInfo  *Hold
 	held      bool
@@ -385,7 +398,10 @@ func (s *Sim) park(t *Task, point string, arg any) {
 		t.hold = s.holdFor(t.name, point, arg)
 	}
 	began := ""
-	if h := t.hold; h != nil && h.At == point {
+	if h := t.hold; h != nil && holdAt(h, point) && t.holdSkip < h.Skip {
+		t.holdSkip++
+	} else if h != nil && holdAt(h, point) {
+		t.holdSkip = 0
 		t.held, t.heldSince, t.heldBase = true, s.Now(), s.pointN[h.For]
 		t.holdInfo = h
 		t.hold = nil
@@ -656,7 +672,7 @@ func (s *Sim) SetHold(h *Hold) {
 	gid := curGID()
 	s.mu.Lock()
 	if t := s.tasks[gid]; t != nil {
-		t.hold = h
+		t.hold, t.holdSkip = h, 0
 	}
 	s.mu.Unlock()
 }
